@@ -259,11 +259,17 @@ def _crc_ok(raw, ct):
     return crc_bytes(ct, raw[:-w] + bytes(w)) == raw[-w:]
 
 
-def ident_of(p):
-    ''' the identity of the property text: source, creation timestamp, + fragment offset/length '''
+def ident_of(p, blocks=None):
+    ''' the identity of the property text: source, creation timestamp, + for fragments the fragment
+    offset and the length of the fragment's payload (RFC 9171 4.3.1) '''
     base = (eid_text(p['src']), p['ts'][0], p['ts'][1])
     if p['flags'] & F_FRAG:
-        base += (p['foff'], p['tlen'])
+        plen = None
+        for k in blocks or []:
+            if k['n'] == 1:
+                plen = None if k['btsd'] is None else len(k['btsd']) // 2
+                break
+        base += (p['foff'], plen)
     return base
 
 
@@ -564,40 +570,61 @@ def model_request(fix_routes, events, node=NODE):
             'events': [e for e in events if e is not None]}
 
 
+def corpus(prop):
+    ''' minimised past failures kept in /verif/corpus/<prop>/*.json (run first by every check) '''
+    import glob
+    import json
+    import os
+    out = []
+    here = os.path.dirname(os.path.dirname(os.path.abspath(__file__)))
+    for fn in sorted(glob.glob(os.path.join(here, 'corpus', prop, '*.json'))):
+        try:
+            rec = json.load(open(fn))
+        except ValueError:
+            continue
+        rec['_file'] = os.path.basename(fn)
+        out.append(rec)
+    return out
+
+
 def model_answers(chk, runs):
     ''' runs: list of (rx_routes, fixture, events). Two passes through the Lean driver: the first gives the
-    size of each forwarded bundle as the fragment-creation step sees it (unfragmented, CRC placeholders);
-    where that exceeds the route MTU the parameter `frag` becomes "raises" — at this commit
-    Fragment._create always raises for received (dissected) bundles: the Raw payload of the type-1 block
-    re-materialises the BTSD in every fragment copy, frag_size < 0, the chain breaks with the route kept and
-    the bundle leaves whole. If fragments ever appear, the comparison breaks and the monitors see them. '''
+    size of each forwarded bundle as the fragment-creation step sees it (unfragmented, CRC placeholders).
+    Where that exceeds the route MTU (and the bundle may be fragmented) the parameter `frag` of the model is
+    decided here, independently of the implementation: "unsendable" when even the non-payload part does not
+    fit (`Fragment._create` clears the route and raises: nothing is sent), otherwise "consumed" (fragments are
+    scheduled and `send_bundle` returns). The events are then run through the model again. '''
     answers = chk.driver([model_request(rx, ev) for (rx, _f, ev) in runs])
     again = []
     for n, ((rx, fix, events), ans) in enumerate(zip(runs, answers)):
         if 'error' in ans:
             continue
         steps = iter(ans['steps'])
-        last_recv = None
         changed = False
         for ev in events:
             if ev is None:
                 continue
             eff = next(steps)
-            if ev['k'] == 'recv':
-                last_recv = ev
-            if ev['k'] != 'fwd' or last_recv is None:
+            if ev['k'] not in ('fwd', 'rpt'):
                 continue
             txs = [e['hex'] for e in eff if e['k'] == 'tx']
             if not txs:
                 continue
             d = dec_bundle(bytes.fromhex(txs[0]))
             mtu = fix.tx_mtu(eid_text(d.pri['dest']))
-            if mtu is not None and len(txs[0]) // 2 > mtu and not d.pri['flags'] & (F_NOFRAG | F_FRAG):
-                ev['sp']['frag'] = 'raises'
+            size = len(txs[0]) // 2
+            if mtu is not None and size > mtu and not d.pri['flags'] & (F_NOFRAG | F_FRAG):
+                pay = [k for k in d.blocks if k['n'] == 1]
+                plen = len(pay[0]['btsd']) // 2 if pay and pay[0]['btsd'] is not None else 0
+                non_pyld = size - plen + 3 * len(enc(plen))
+                ev['sp']['frag'] = 'unsendable' if non_pyld > mtu else 'consumed'
                 changed = True
         if changed:
             again.append(n)
-    # `raises` and `none` lead to the same transmitted octets in the model: no second pass needed
+    if again:
+        redo = chk.driver([model_request(runs[n][0], runs[n][2]) for n in again])
+        for n, ans in zip(again, redo):
+            answers[n] = ans
     return answers
 
 
